@@ -377,6 +377,9 @@ func registry() map[string]PropSpec {
 			{Pkg: "signature", Name: "c06_resign", Quick: map[string]int{}, Unwind: [2]int{64, 64}, Budget: [2]int{120, 1500}, FixedMapOrder: true,
 				Models: []string{"net/url.Parse=vpModelURLParse", "path.Join=vpModelPathJoin"},
 				What:   "histories of two SignSteps calls on the same step objects (top level or in a group) with the same key: first any subset of {A, B} as pipeline env, then another subset, value and repository: the result is that of signing fresh steps (exact field list for the env given now, verifies, changed/removed variables and another repository refused)"},
+			{Pkg: "signature", Name: "c06_rotation", Quick: map[string]int{"group": 0}, Thorough: map[string]int{"group": 1}, Unwind: [2]int{64, 64}, Budget: [2]int{120, 1500}, FixedMapOrder: true,
+				Models: []string{"net/url.Parse=vpModelURLParse", "path.Join=vpModelPathJoin"},
+				What:   "key rotation that keeps the key id: identical steps signed first with one key and then, in the same process, with another key of the same algorithm and key id verify under the key that signed them and not under the other (no memory of earlier signings)"},
 			{Pkg: "signature", Name: "c06_envnames", Quick: map[string]int{}, Unwind: [2]int{64, 64}, Budget: [2]int{120, 1500}, FixedMapOrder: true,
 				Models: []string{"net/url.Parse=vpModelURLParse", "path.Join=vpModelPathJoin"},
 				What:   "one command step and one pipeline variable whose name is 0-3 symbolic bytes over the characters that occur in the signing code's own constants (read from the current SSA of sign.go: the env:: prefix, separators) plus A, _, a; shadowed or not: SignSteps signs env::NAME exactly when unshadowed, the field list is sorted and distinct, the signature verifies, and a changed value is refused"},
@@ -453,6 +456,8 @@ func registry() map[string]PropSpec {
 				What: "the same signed worlds through the YAML leg on the node data model: yaml.Marshal of the signed pipeline -> node tree -> parse -> Verify; signature value unchanged, still verifies, also inside groups"},
 			{Pkg: "signature", Name: "c02_parsed", Quick: map[string]int{}, Unwind: [2]int{64, 64}, Budget: [2]int{120, 1500}, FixedMapOrder: true, Models: []string{"net/url.Parse=vpModelURLParse", "path.Join=vpModelPathJoin"},
 				What: "the upload path on steps that come out of the parser: a command-step document in the decoder's input form (9 matrix spellings incl. `matrix: []`, `setup: []`, `setup: {}`, `setup: null`, mixed scalar kinds; 3 env spellings with non-string scalars and null; 4 plugin spellings; label and an unknown key) -> ordered.Unmarshal -> SignSteps -> json.Marshal and yaml.Marshal -> re-parse (whole pipeline, and CommandStep.UnmarshalJSON) -> Verify"},
+			{Pkg: "signature", Name: "c02_resigned", Quick: map[string]int{}, Unwind: [2]int{64, 64}, Budget: [2]int{120, 1500}, FixedMapOrder: true, Models: []string{"net/url.Parse=vpModelURLParse", "path.Join=vpModelPathJoin"},
+				What: "documents that already carry a (stale) signature block, and plugin sources in unusual spellings (trailing or doubled slashes, dot segments, canonical source with a trailing slash): parse -> SignSteps now -> verifies in memory and after the JSON and YAML round trips"},
 		},
 		Outside: []string{
 			"the YAML leg and real bytes: the round trip through yaml.v3's emitter/scanner and encoding/json's byte output, and real signatures - this part of C02 is not claimed",
